@@ -18,4 +18,9 @@ def standin(*props: str):
 def for_property(pid: str) -> List[Callable[..., Dict[str, Any]]]:
     import bounded.keyspace  # noqa: F401
     import bounded.bsprog  # noqa: F401
+    import bounded.outputs  # noqa: F401
+    import bounded.cfgcheck  # noqa: F401
+    import bounded.relational  # noqa: F401
+    import bounded.tablecheck  # noqa: F401
+    import bounded.parsecheck  # noqa: F401
     return _REG.get(pid, [])
